@@ -26,6 +26,12 @@ def shapes():
                        Stmt("srcalias", ex=["s"], phony=True), Stmt("t", ex=["srcalias"]),
                        Stmt("s2", phony=True), Stmt("u", ex=["s2"])]),
     ]))
+    # `generator = 1` bound in the build block (one rule shared by a generator and an ordinary statement)
+    _gb = Stmt("cfg", ex=["cfg.in"], generator=True)
+    _gb.generator_at_build = True
+    S.append(("generator_bound_in_build_block", [
+        Variant("v0", [_gb, Stmt("use", ex=["cfg"]), Stmt("top", ex=["use"])]),
+    ]))
     S.append(("multi_shared", [
         Variant("v0", [Stmt(["x", "y"], ex=["s"], iouts=["z"]), Stmt("c", ex=["x", "sh"]), Stmt("d", ex=["y", "sh"], im=["z"])]),
     ]))
@@ -50,6 +56,8 @@ def shapes():
             Variant("v0", [Stmt("gen.h", ex=["g.in"]), Stmt("foo.o", ex=["foo.c"], oo=["gen.h"], hidden=["gen.h"], **kw),
                            Stmt("old.out", ex=["foo.c"])]),
             Variant("v1", [Stmt("foo.o", ex=["foo.c"], hidden=["gen.h"], **kw)]),
+            # ... and the statement stops recording dependencies at all: nothing in the graph names gen.h any more
+            Variant("v2", [Stmt("foo.o", ex=["foo.c"])]),
         ]))
     # a subninja file is a scope of its own and may declare a rule named like one of the including file: `clean -r`
     # names the rule, and statements of both scopes use a rule of that name.  (A rule name that exists *only* inside a
